@@ -8,7 +8,8 @@
      whole validation equals one [assert_context] over the same queue, in field-declaration order whatever
      the keyword order (values are looked up by field name).
    Hence verdict and report coincide (they are the same [dres]). *)
-From DL Require Import Base Lexer Parser Eval Shape Dtypes Check Context Hints Call Entry Structural.
+From Coq Require Import Permutation.
+From DL Require Import Base Lexer Parser Eval Shape Dtypes Check Context Hints Call Entry Structural KwOrder.
 
 Theorem C14_class_forms_queue_like_functions : forall ps vals q,
   Forall (fun p => ((fst p =? "self") || (fst p =? "cls"))%string = false) ps ->
@@ -21,6 +22,18 @@ Proof. exact run_pydantic_is_one_context. Qed.
 Theorem C14_field_validation_is_assert_one : forall c n a x,
   validate_field c n a x = assert_one c {| c_idx := 0; c_name := n; c_tensor := x; c_annot := a |}.
 Proof. exact validate_field_is_assert_one. Qed.
+(* every form walks its parameters / fields in declaration order and finds the values by name: the order in which the
+   caller writes the keywords (any permutation of the bound arguments, names distinct) changes nothing - neither verdict nor
+   report nor whether the body runs *)
+Theorem C14_keyword_order_irrelevant_function : forall w ps a b body, Permutation a b -> NoDup (map fst a) ->
+  run_call w ps a body = run_call w ps b body.
+Proof. exact run_call_kw_order. Qed.
+Theorem C14_keyword_order_irrelevant_class_forms : forall ps a b, Permutation a b -> NoDup (map fst a) ->
+  run_construct ps a = run_construct ps b.
+Proof. exact run_construct_kw_order. Qed.
+Theorem C14_keyword_order_irrelevant_pydantic : forall fields a b, Permutation a b -> NoDup (map fst a) ->
+  run_pydantic fields a = run_pydantic fields b.
+Proof. exact run_pydantic_kw_order. Qed.
 (* non-vacuity: concrete wrappers, arguments and values that meet the hypotheses above *)
 Definition ty0 : ttype := {| t_shape := []; t_mindex := None; t_mname := None; t_anon := false; t_lits := [] |}.
 Definition annA (s:string) (o:bool) : annot :=
@@ -39,5 +52,10 @@ Example ex14_hypotheses_met :
   field_queue [("x", annA "a b" false); ("y", annA "b" true)] [("y", VNone); ("x", arrE [2;3]%Z)]
    = Some [{| c_idx := 0; c_name := "x"; c_tensor := tenE [2;3]%Z; c_annot := annA "a b" false |}].
 Proof. repeat split; repeat constructor; discriminate. Qed.
+Example ex14_keyword_order : Permutation vals14 (rev vals14) /\ NoDup (map fst vals14) /\
+  run_construct ps14 (rev vals14) = DRej (EShape "y" 0 3 5).
+Proof. split; [apply Permutation_rev|]. split; [repeat constructor; simpl; intuition discriminate|]. vm_compute. reflexivity. Qed.
 Redirect "C14.assumptions.1" Print Assumptions C14_pydantic_is_one_context.
 Redirect "C14.assumptions.2" Print Assumptions C14_class_forms_queue_like_functions.
+Redirect "C14.assumptions.3" Print Assumptions C14_keyword_order_irrelevant_function.
+Redirect "C14.assumptions.4" Print Assumptions C14_keyword_order_irrelevant_pydantic.
